@@ -6,7 +6,7 @@ git clone -q /repo $c/r || exit 2
 (cd /repo && git diff) > $c/wip.diff; [ -s $c/wip.diff ] && (cd $c/r && git apply $c/wip.diff)
 (cd $c/r && git apply "$patch") || { echo "patch does not apply"; rm -rf $c; exit 2; }
 export GOFLAGS=-mod=mod GOPROXY=off GOVC_REPO=$c/r GOVC_EVIDENCE_DIR=$c/ev GOVC_REPLAY_DIR=$c/rp GOVC_NO_SENSITIVITY=1
-timeout 900 /verif/bin/govc check -property "$prop" -tier "$tier" > $c/log 2>&1; rc=$?
+timeout 900 ${GOVC_BIN:-/verif/bin/govc} check -property "$prop" -tier "$tier" > $c/log 2>&1; rc=$?
 grep -E "^VIOLATION|^UNDECIDED|^KNOWN|^govc:" $c/log | cut -c1-230 | head -${LINES_MAX:-8}
 echo "exit=$rc"
 rm -rf $c
